@@ -2,11 +2,16 @@
 EXTENDS Router
 S(n, sc) == [scheme |-> n, scopes |-> sc]
 P(n, in, w, t, r) == [name |-> n, in |-> in, wire |-> w, type |-> t, required |-> r, validate |-> ""]
+PV(n, in, w, t, r, v) == [P(n, in, w, t, r) EXCEPT !.validate = v]
 H(alts, ps, rv) == [alts |-> alts, params |-> ps, returnsValue |-> rv, respCheck |-> IF rv /\ Len(ps) = 2 THEN "invalid" ELSE "valid"]
 AltChoices == { <<>>, <<S("s1", <<>>)>>, <<S("s1", <<"r">>), S("s2", <<"w">>)>>, <<S("s2", <<>>), S("s2", <<"r">>), S("s1", <<>>)>> }
 ParamSeqs == { <<>>, <<P("a", "path", "a", "int", TRUE)>>, <<P("ctx", "ctx", "", "context.Context", FALSE), P("b", "query", "x-b", "*int", FALSE), P("c", "header", "X-C", "string", TRUE)>>,
                <<P("a", "path", "a", "string", TRUE), P("e", "body", "e", "p1.Item", TRUE)>>, <<P("d", "form", "d", "*bool", FALSE), P("b", "query", "b", "[]int", TRUE)>> }
-HandlersM == { H(a, ps, rv) : a \in AltChoices, ps \in ParamSeqs, rv \in BOOLEAN }
+\* declared validators and an enum parameter (strict or not)
+ParamSeqsV == { <<PV("a", "path", "a", "int8", TRUE, "gte=1"), PV("b", "query", "b", "string", TRUE, "omitempty,oneof=abc a+b"), P("c", "header", "c", "p1.Color", TRUE)>>,
+                <<PV("b", "query", "b", "*int", FALSE, "omitempty,gte=1")>> }
+HandlersM == { H(a, ps, rv) @@ [enumStrict |-> FALSE] : a \in AltChoices, ps \in ParamSeqs, rv \in BOOLEAN }
+             \cup { H(a, ps, FALSE) @@ [enumStrict |-> es] : a \in {<<>>, <<S("s1", <<"r">>), S("s2", <<"w">>)>>}, ps \in ParamSeqsV, es \in BOOLEAN }
 ScriptsM == UNION { [1..n -> BOOLEAN] : n \in 0..3 }
 HandlersTok == { H(<<>>, <<>>, FALSE) }
 ScriptsTok == { <<>> }
